@@ -2,6 +2,7 @@ package sysdefs
 
 import (
 	"fmt"
+	"sort"
 
 	"github.com/DistCompiler/pgo/distsys"
 	"github.com/DistCompiler/pgo/distsys/tla"
@@ -9,6 +10,48 @@ import (
 
 	"verifharness/internal/mpexec"
 )
+
+// g3Canon rebuilds v so that equal values print identically: the tla library prints sets and functions in
+// the iteration order of an immutable map, which for small maps is the insertion order ({a, b} built as
+// {a} \cup {b} or {b} \cup {a} prints differently). Elements are re-inserted in the order of their
+// (canonical) print. The value itself is unchanged (tla.Value.Equal ignores the order).
+func g3Canon(v tla.Value) tla.Value {
+	if v == (tla.Value{}) {
+		return v
+	}
+	switch {
+	case v.IsSet():
+		var es []tla.Value
+		it := v.AsSet().Iterator()
+		for !it.Done() {
+			e, _, _ := it.Next()
+			es = append(es, g3Canon(e))
+		}
+		sort.Slice(es, func(i, j int) bool { return es[i].String() < es[j].String() })
+		return tla.MakeSet(es...)
+	case v.IsTuple():
+		var es []tla.Value
+		it := v.AsTuple().Iterator()
+		for !it.Done() {
+			_, e := it.Next()
+			es = append(es, g3Canon(e))
+		}
+		return tla.MakeTuple(es...)
+	case v.IsFunction():
+		var fs []tla.RecordField
+		it := v.AsFunction().Iterator()
+		for !it.Done() {
+			k, e, _ := it.Next()
+			fs = append(fs, tla.RecordField{Key: g3Canon(k), Value: g3Canon(e)})
+		}
+		sort.Slice(fs, func(i, j int) bool { return fs[i].Key.String() < fs[j].Key.String() })
+		return tla.MakeRecord(fs)
+	}
+	return v
+}
+
+// g3Var is a plain TLA+ value held in canonical print order (see g3Canon).
+func g3Var(v tla.Value) *mpexec.Val { return &mpexec.Val{V: g3Canon(v)} }
 
 // Gcounter builds systems/gcounter/gcounter.tla with NUM_NODES = n.
 //
@@ -26,7 +69,7 @@ func Gcounter(n int, benchRounds int) *mpexec.System {
 	localcntrs := mpexec.NewFn()
 	c := mpexec.NewFn()
 	for i := 1; i <= n; i++ {
-		localcntrs.Set(num(i), &mpexec.Val{V: zeroFn})
+		localcntrs.Set(num(i), g3Var(zeroFn))
 		c.Set(num(i), &mpexec.Val{V: tla.MakeSet()})
 	}
 	w.Set("localcntrs", localcntrs)
@@ -37,7 +80,7 @@ func Gcounter(n int, benchRounds int) *mpexec.System {
 		distsys.DefineConstantValue("BENCH_NUM_ROUNDS", num(benchRounds)),
 	}}
 	cell := func(name string, i tla.Value) tla.Value { return w.G[name].(*mpexec.Fn).Get(i).(*mpexec.Val).V }
-	set := func(name string, i tla.Value, v tla.Value) { w.G[name].(*mpexec.Fn).Set(i, &mpexec.Val{V: v}) }
+	set := func(name string, i tla.Value, v tla.Value) { w.G[name].(*mpexec.Fn).Set(i, g3Var(v)) }
 
 	// mapping macro LocalGCntr {
 	//   read  { yield SUM($variable, DOMAIN $variable); }
